@@ -161,7 +161,7 @@ def _rs():
     return US
 
 
-_EXPL_Q = [("RK4", False), ("RK23", False), ("DOPRI5", False), ("RK23", True)]
+_EXPL_Q = [("RK4", False), ("RK23", False), ("DOPRI5", False), ("RK23", True), ("DOP853", False)]
 _EXPL_T = [(m, b) for m in ("RK4", "RK23", "DOPRI5", "DOP853") for b in (False, True)]
 
 
@@ -214,3 +214,84 @@ PROPS["C11"] = {"level": "other", "r": {"quick": _step_units("c11", "quick") + _
                 "files": _ST_FILES, "functions": ["solve() loop heads, step-size clamps, hinit"],
                 "explanation": _ST_EXPL + " C11: accepted intervals <= max_step (1% stretch only on the landing step), |h| <= max_step is part of the preserved loop-head invariant; the first trial step is first_step signed toward xend; max_steps is read once per iteration against the total step count and, once exhausted, the run ends with NeedLargerNMax without further evaluations.",
                 "assumptions": _ST_ASSUME, "bounds": "n=1; all feasible paths", "outside": ["bit-identical prefix of the unbudgeted run (relational)", "Radau, BDF"]}
+
+
+# ------------------------------------------------------------------------------- output handler (R-round)
+def _rh():
+    import sys
+    if VERIF not in sys.path:
+        sys.path.insert(0, VERIF)
+    from rsym import units_handler as UH
+    return UH
+
+
+def _handler_units(prop, tier):
+    UH = _rh()
+    q = tier == "quick"
+    if prop == "c05":
+        u = [UH.c05_teval(2, 2), UH.c05_teval(2, 2, backward=True), UH.c05_teval(3, 2), UH.c05_teval(2, 2, configs=[("All", 1)]),
+             UH.c05_teval(2, 1, backward=True, configs=[("Negative", 1)])]
+        if not q:
+            u += [UH.c05_teval(3, 3), UH.c05_teval(3, 3, backward=True), UH.c05_teval(2, 2, configs=[("All", 1), ("All", None)]),
+                  UH.c05_teval(3, 2, configs=[("Positive", 2)])]
+        return u
+    if prop == "c03":
+        u = [UH.c03_mode2(2), UH.c03_mode2(3, backward=True), UH.c03_mode2(2, with_first_step=True), UH.c03_mode2(3, backward=True, with_first_step=True)]
+        if not q:
+            u += [UH.c03_mode2(4), UH.c03_mode2(3, with_first_step=True)]
+        return u
+    ev = lambda *a, **k: UH.events_unit(prop, *a, **k)
+    # two event functions: exhaustive end-point sign patterns over ONE step (ordering / terminal-with-earlier-or-later facts
+    # are single-step facts); two steps with two functions only in the thorough tier (thousands of paths)
+    if prop == "c08":
+        u = [ev(2, [("All", None)]), ev(1, [("Positive", None), ("Negative", None)]), ev(1, [("All", None), ("All", None)], backward=True),
+             ev(2, [("Negative", None)], backward=True), ev(1, [("Positive", None)], with_first_step=True, event_values="rich"),
+             ev(1, [("All", None)], event_values="rich")]
+        if not q:
+            u += [ev(3, [("All", None)]), ev(2, [("All", None)], event_values="rich"), ev(2, [("Positive", None), ("Negative", None)]),
+                  ev(2, [("Positive", None)], with_first_step=True, event_values="rich")]
+        return u
+    if prop == "c09":
+        u = [ev(2, [("All", None)]), ev(2, [("Positive", None)], backward=True), ev(1, [("Negative", None), ("All", None)]),
+             ev(2, [("All", None)], with_teval=1), ev(2, [("All", 2)]), ev(2, [("Negative", None)])]
+        if not q:
+            u += [ev(3, [("Positive", None)]), ev(3, [("All", None)], backward=True), ev(2, [("Negative", None)], event_values="rich"),
+                  ev(2, [("Negative", None), ("All", None)])]
+        return u
+    if prop == "c10":
+        u = [ev(2, [("All", 1)]), ev(2, [("Positive", 2)]), ev(1, [("All", 1), ("All", None)]), ev(1, [("All", None), ("Negative", 1)], backward=True),
+             ev(2, [("All", 1)], with_teval=1), ev(2, [("All", 1)], event_values="rich", backward=True), ev(1, [("All", 1), ("All", None)], backward=True)]
+        if not q:
+            u += [ev(3, [("All", 2)]), ev(2, [("All", 1), ("All", None)]), ev(3, [("Negative", 1)], backward=True),
+                  ev(1, [("All", 1), ("All", None)], backward=True, with_teval=1)]
+        return u
+    if prop == "c12":
+        u = [ev(2, [("All", None)], with_teval=1), ev(1, [("Positive", None), ("All", None)]), UH.c05_teval(2, 2, name="c12_teval_2steps_2times"),
+             UH.c05_teval(3, 2, name="c12_teval_3steps_2times"), UH.c03_mode2(2, with_first_step=True), UH.c03_mode2(3, backward=True)]
+        if not q:
+            u += [ev(3, [("All", None)], with_teval=1, backward=True), UH.c05_teval(3, 3, name="c12_teval_3steps_3times"), ev(2, [("All", None)], with_teval=2)]
+        return u
+    raise KeyError(prop)
+
+
+_H_FILES = ["src/solve/solout.rs", "src/solve/event.rs", "src/dense.rs", "src/solve/solve_ivp.rs"]
+_H_EXPL = ("DefaultSolOut::new and ::solout are executed symbolically from the source, driven by an arbitrary protocol-conforming sequence of "
+           "accepted steps (what C03/C19 guarantee about the steppers): step boundaries, requested times and first_step are z3 reals (the "
+           "handler's own float operations carry a relative rounding error 2^-53 plus monotonicity), the interpolant is 'the value is the "
+           "time' so which time a reported value was taken at is a term identity, event functions take end-point values from a finite set "
+           "covering all sign patterns / exact zero / below-xtol magnitudes, and Brent's loop is bounded by an exact root at its first "
+           "interior probe. Every feasible path is enumerated; every fact is a z3 query.")
+_H_ASSUME = ["accepted steps longer than 4e-12 and above 16 ulp of x (shorter steps: known limitation of the handler's absolute 1e-12 slack, DESIGN section 8 row 10)",
+             "|x| <= 1e6", "t_eval sorted in the direction of integration and inside the span",
+             "Brent's convergence for arbitrary continuous g is outside every claim (exact root at the first interior probe)",
+             "std's slice::sort_by modelled by an insertion sort with the real comparator"]
+
+for _pid, _key, _extra in (("C05", "c05", ""), ("C08", "c08", ""), ("C09", "c09", ""), ("C10", "c10", ""), ("C12", "c12", "")):
+    PROPS[_pid] = {"level": "other", "r": {"quick": _handler_units(_key, "quick"), "thorough": _handler_units(_key, "thorough")},
+                   "files": _H_FILES, "functions": ["DefaultSolOut::new", "DefaultSolOut::solout"], "explanation": _H_EXPL,
+                   "assumptions": _H_ASSUME, "bounds": {"quick": "2-3 steps, <= 2 requested times, <= 2 event functions", "thorough": "3 steps, 3 requested times, 2 event functions, rich end-point values"},
+                   "outside": ["|g(t_e)| small for arbitrary continuous g (Brent convergence)", "accuracy of interpolated values (C01/C07)"]}
+PROPS["C03"]["r"]["quick"] = PROPS["C03"]["r"]["quick"] + _handler_units("c03", "quick")
+PROPS["C03"]["r"]["thorough"] = PROPS["C03"]["r"]["thorough"] + _handler_units("c03", "thorough")
+PROPS["C03"]["files"] = PROPS["C03"]["files"] + ["src/solve/solout.rs"]
+PROPS["C12"]["outside"] = ["bit-identity of whole runs with/without output options is not decided directly: it follows from (a) the handler never modifies x/y and returns Continue (decided here) and (b) solve_ivp passing t_eval/dense_output/events only to the handler (one-line reading of solve_ivp.rs, listed as an assumption)"]
